@@ -54,7 +54,8 @@ LineOK(P, o) ==
                        LET m == CHOOSE x \in Range(P[s]) : x.v = o.v
                        IN [i \in DOMAIN o.pts |-> <<o.pts[i].t, o.pts[i].v>>] = [i \in DOMAIN m.p |-> <<m.p[i], m.v * 10 + i>>])
     ELSE /\ (cfg.edge = "stream" => (o.vals[1] > 0 => o.name = "a") /\ o.nf = cfg.n)   \* name of the left parent; one field per parent
-         /\ (cfg.edge = "batch" => NoDup(o.pts))
+         /\ (cfg.edge = "batch" => /\ NoDup(o.pts)
+                                    /\ \A i \in DOMAIN o.pts : o.pts[i].nf = cfg.n)   \* every joined point: one field per parent, filled or not
 
 (* ---------- the reference and the verdict predicates ---------- *)
 NonEmptyB(S) == { b \in S : b.pts # {} }
